@@ -37,6 +37,7 @@ type c06Prog struct {
 	Conc     int          `json:"conc"`               // LogOptions.Concurrency of the destination (0 = default)
 	Bound    int          `json:"bound,omitempty"`    // 0: unbounded merge; k > 0: the merge carries the size bound (k-1) mod (candidates+3)
 	SharedAC bool         `json:"sharedAC,omitempty"` // the source log is guarded by the very access-controller object of the destination (it was built from entries, so the controller never saw them)
+	Window   int          `json:"window,omitempty"`   // k > 0: the destination is a window of its history: only its newest 1 + (k-1) mod (len-1) entries
 	Stranger int          `json:"stranger,omitempty"` // 0: no; 1, 2: before anything else the source is offered to a replica of ANOTHER codec configuration (other link key / link key where the writers have none / none where they have one); whatever that replica answers, the entries remain what Append produced
 	InPlace  bool         `json:"inPlace"`            // corrupt the source's entry objects themselves (they were verified by an earlier merge) instead of copies
 }
@@ -60,6 +61,7 @@ func genC06(t *rapid.T) c06Prog {
 	p.InPlace = rapid.IntRange(0, 2).Draw(t, "inPlace") == 0
 	p.SharedAC = rapid.IntRange(0, 2).Draw(t, "sharedAC") == 0
 	p.Stranger = rapid.SampledFrom([]int{0, 0, 1, 2}).Draw(t, "stranger")
+	p.Window = rapid.SampledFrom([]int{0, 0, 0, 1, 2, 3, 5, 8}).Draw(t, "window")
 	if rapid.IntRange(0, 3).Draw(t, "bounded") == 0 {
 		p.Bound = rapid.IntRange(1, 1<<10).Draw(t, "bound")
 	}
@@ -157,6 +159,19 @@ func runC06(tb ev.TB, p c06Prog) ev.Result {
 	}
 	src := w.Reps[si]
 	dstModel := w.Reps[di].Model
+	// the destination may be a window of its history (what a size-bounded merge or a length-limited load leaves): it
+	// then holds only the newest k entries; older ones it once pointed to can come back as candidates
+	windowed := false
+	var windowEntries []iface.IPFSLogEntry
+	if p.Window > 0 && len(dstModel) >= 2 && w.Reg.StrictTotalOn(w.Order, dstModel) {
+		vals := w.Reps[di].Log.Values().Slice()
+		if len(vals) == len(dstModel) {
+			k := 1 + (p.Window-1)%(len(vals)-1)
+			windowEntries = vals[len(vals)-k:]
+			dstModel = world.SetOf(world.SliceHashes(windowEntries))
+			windowed = true
+		}
+	}
 
 	// (a0) the source may first have been offered to a replica configured differently
 	if p.Stranger > 0 && len(src.Model) > 0 {
@@ -226,8 +241,20 @@ func runC06(tb ev.TB, p c06Prog) ev.Result {
 	}
 	// destination: a fresh log that holds exactly dst's entries, with the generated policy
 	dstRep := w.Reps[di]
+	dstEntries, dstHeads := dstRep.Log.GetEntries(), dstRep.Log.Heads().Slice()
+	if windowed {
+		dstEntries = entry.NewOrderedMapFromEntries(windowEntries)
+		dstHeads = nil
+		hs := w.Reg.ModelHeads(dstModel)
+		for _, e := range windowEntries {
+			if hs.Has(e.GetHash().String()) {
+				dstHeads = append(dstHeads, e)
+			}
+		}
+		classes = append(classes, "destination-is-a-window")
+	}
 	dst, err := world.NewLog(w.Store.API(), dstRep.Writer, sim.LogID, w.Order, w.IO, &ipfslog.LogOptions{
-		Entries: dstRep.Log.GetEntries(), Heads: dstRep.Log.Heads().Slice(), AccessController: pol, Concurrency: uint(p.Conc),
+		Entries: dstEntries, Heads: dstHeads, AccessController: pol, Concurrency: uint(p.Conc),
 		Clock: entry.NewLamportClock(dstRep.Log.Clock.GetID(), dstRep.Log.Clock.GetTime()),
 	})
 	if err != nil {
@@ -524,7 +551,7 @@ func (a snap) diff(b snap) string {
 
 func TestC06(t *testing.T) {
 	c := ev.Get("C06")
-	c.Rule = "a generated multi-replica program (1-4 writers, default/link-key/legacy codec) builds valid logs; every appended entry must verify and the source must merge into a fresh permissive replica. Then a corruption plan (0..all positions; kinds: signature removed/from another entry/bit-flipped, key removed/foreign/garbage/truncated, payload/next/time changed after signing, foreign log id) is applied to copies placed in a source log built with NewLog(Entries, Heads), the destination holds another replica's entries and a generated pure access policy (deny by writer / payload prefix / hash set, or one that inspects the log through the context the library hands over and permits an entry only while that log is exactly what the destination held before the merge). The harness computes the candidate set itself; if any candidate is invalid or denied the merge must fail and leave the full snapshot (entries, heads, values, published heads, clock, result of a following append) unchanged, otherwise it must succeed with destination ∪ candidates. In half of the programs the valid source is first offered to a replica of another codec configuration (another link key, a link key where the writers have none, none where they have one): whatever it answers, every entry must still verify and merge under its own configuration. After every merge, whatever the log hands out as entries, heads or values under an identifier it held before (or accepted) must have that entry's content - the source may carry tampered objects under identifiers the destination already holds. Also: denied Append returns an error and changes neither entries nor heads. Non-trivial = an invalid candidate that is not a head of the source, with >= 2 candidates; distinct = distinct program."
+	c.Rule = "a generated multi-replica program (1-4 writers, default/link-key/legacy codec) builds valid logs; every appended entry must verify and the source must merge into a fresh permissive replica. Then a corruption plan (0..all positions; kinds: signature removed/from another entry/bit-flipped, key removed/foreign/garbage/truncated, payload/next/time changed after signing, foreign log id) is applied to copies placed in a source log built with NewLog(Entries, Heads), the destination holds another replica's entries - all of them or, in three cases of eight, only a window of the newest ones (what a bounded merge or limited load leaves) - and a generated pure access policy (deny by writer / payload prefix / hash set, or one that inspects the log through the context the library hands over and permits an entry only while that log is exactly what the destination held before the merge). The harness computes the candidate set itself; if any candidate is invalid or denied the merge must fail and leave the full snapshot (entries, heads, values, published heads, clock, result of a following append) unchanged, otherwise it must succeed with destination ∪ candidates. In half of the programs the valid source is first offered to a replica of another codec configuration (another link key, a link key where the writers have none, none where they have one): whatever it answers, every entry must still verify and merge under its own configuration. After every merge, whatever the log hands out as entries, heads or values under an identifier it held before (or accepted) must have that entry's content - the source may carry tampered objects under identifiers the destination already holds. Also: denied Append returns an error and changes neither entries nor heads. Non-trivial = an invalid candidate that is not a head of the source, with >= 2 candidates; distinct = distinct program."
 	c.Assumptions = []string{"the access controller is a pure function safe for concurrent calls", "an entry with a foreign log id is skipped silently (together with what is only reachable through it), as the statement's first clause says, and is not one of the error-raising kinds"}
 	ev.Check(t, "C06", genC06, runC06)
 }
